@@ -34,7 +34,7 @@ CHECKS = {
          "DESIGN.md#c03"),
  "C04": ("E", "exploration",
          "bounded-exhaustive enumeration of opcode cost classes x repetition x fork rules x all entry points with limit sweep at every partial-sum boundary",
-         "For every cost letter (each of the 35 known opcodes as a valid stand-alone group, all 512 two-byte opcodes over the 256 cost slots x high byte {01,ff}, 3 unknown shapes, SOFTFORK with 3 arguments) x repetition 1..2 (quick) / 1..3 (thorough) x COST_CONDITIONS on/off x 1-2 spends, the cost reported by parse_spends, run_block_generator, run_block_generator2 (byte cost and INTERNED_GENERATOR) and run_spendbundle (both) must equal harness size cost + clvmr's own execution cost + the literal cost table, with consistent bundle-wide and per-spend sub-totals; each path is re-run with the limit at 0, total-1, total, total+1 and every partial sum of its charge sequence +-1 and must succeed exactly for limits >= total with an unchanged cost.",
+         "For every cost letter (each of the 35 known opcodes as a valid stand-alone group, all 512 two-byte opcodes over the 256 cost slots x high byte {01,ff}, 3 unknown shapes, SOFTFORK with 3 arguments) x repetition 1..3 (both tiers) x COST_CONDITIONS on/off x 1-2 spends, the cost reported by parse_spends, run_block_generator, run_block_generator2 (byte cost and INTERNED_GENERATOR) and run_spendbundle (both) must equal harness size cost + clvmr's own execution cost + the literal cost table, with consistent bundle-wide and per-spend sub-totals; each path is re-run with the limit at 0, total-1, total, total+1 and every partial sum of its charge sequence +-1 and must succeed exactly for limits >= total with an unchanged cost.",
          "trusts: the literal cost table and 256-slot table in mc::refcond (self-checked against the exact closed form 100*(17/16)^i), clvmr::run_program for execution cost, harness serialiser/interning count for size cost",
          "DESIGN.md#c04"),
  "C02": ("E", "exploration",
@@ -44,7 +44,7 @@ CHECKS = {
          "DESIGN.md#c02"),
  "C06": ("E", "exploration",
          "bounded-exhaustive metamorphic enumeration: strict-vs-lenient flag subsets and all permutations of spends and conditions, both sides being the real validator",
-         "For every bundle of the stated alphabet (spend A with every multiset of <=2 of ~125 interaction and strict-sensitive letters, two-spend bundles with a child/sibling carrying one letter each, the ephemeral child with every multiset of two lock/birth/ASSERT_EPHEMERAL letters, every multiset of three locks inside each after/before family; thorough adds triples over the aggregating letters) and 4 fork flag sets x all 7 non-empty subsets of {NO_UNKNOWN_CONDS, STRICT_ARGS_COUNT, LIMIT_SPENDS}: accepted under the stricter set implies accepted under the fork flags alone with identical summary and cost; and for every permutation of conditions within each spend x every permutation of the spends under 4 flag sets: identical verdict, cost and order-insensitive summary (FF flag masked). LIMIT_SPENDS at 5999/6000/6001 spends.",
+         "For every bundle of the stated alphabet (spend A with every multiset of <=2 of ~125 interaction and strict-sensitive letters, two-spend bundles with a child/sibling carrying one letter each, the ephemeral child with every multiset of two lock/birth/ASSERT_EPHEMERAL letters, every multiset of three locks inside each after/before family; triples over the aggregating letters; both tiers enumerate the same space) and 4 fork flag sets x all 7 non-empty subsets of {NO_UNKNOWN_CONDS, STRICT_ARGS_COUNT, LIMIT_SPENDS}: accepted under the stricter set implies accepted under the fork flags alone with identical summary and cost; and for every permutation of conditions within each spend x every permutation of the spends under 4 flag sets: identical verdict, cost and order-insensitive summary (FF flag masked). LIMIT_SPENDS at 5999/6000/6001 spends.",
          "trusts: nothing but the comparison code (no reference model: both sides are parse_spends); conditions that interact only in groups of 3+ outside the thorough triples are not covered",
          "DESIGN.md#c06"),
  "C16": ("E", "exploration",
@@ -89,7 +89,7 @@ CHECKS = {
          "DESIGN.md#c10"),
  "C05": ("E", "exploration",
          "bounded-exhaustive enumeration of signed base cases and single-point tamperings through every verification path, with the harness's own rule table and signer as oracle",
-         "Every base case (8 AGG_SIG opcodes x 23 coin amounts at every minimal-encoding length boundary x message lengths, plus a fixed second pair) is signed by the harness over its own table of what each opcode appends (parent / puzzle hash / minimal amount / coin id + the opcode's domain constant) and must be accepted by parse_spends (block and mempool visitor; no, cold, warm and foreign-warm BlsCache), run_block_generator2 and validate_clvm_and_signature; the (key, message) pairs reported by run_spendbundle and the text from make_aggsig_final_message must equal the table. Then 17 single-point tamperings per case (other signature, identity signature, message byte, key swap, amount neighbours, parent byte, puzzle hash, own / foreign domain constant altered in the constants, pair dropped / duplicated, infinity and off-curve key, neighbouring opcode) must be rejected on every path exactly when they change the signed multiset, and accepted otherwise; AGG_SIG_UNSAFE messages ending in any of the 7 constants are rejected although correctly signed (6 message shapes each, also with DONT_VALIDATE_SIGNATURE); bundles without any AGG_SIG condition are accepted with the identity signature only (3 other signatures, every path); pair lists containing the infinity key get the cache-free verdict from BlsCache::aggregate_verify cold and warm. Thorough adds more message lengths and all 64 ordered opcode pairs over two spends.",
+         "Every base case (8 AGG_SIG opcodes x 23 coin amounts at every minimal-encoding length boundary x message lengths, plus a fixed second pair) is signed by the harness over its own table of what each opcode appends (parent / puzzle hash / minimal amount / coin id + the opcode's domain constant) and must be accepted by parse_spends (block and mempool visitor; no, cold, warm and foreign-warm BlsCache), run_block_generator2 and validate_clvm_and_signature; the (key, message) pairs reported by run_spendbundle and the text from make_aggsig_final_message must equal the table. Then 17 single-point tamperings per case (other signature, identity signature, message byte, key swap, amount neighbours, parent byte, puzzle hash, own / foreign domain constant altered in the constants, pair dropped / duplicated, infinity and off-curve key, neighbouring opcode) must be rejected on every path exactly when they change the signed multiset, and accepted otherwise; AGG_SIG_UNSAFE messages ending in any of the 7 constants are rejected although correctly signed (6 message shapes each, also with DONT_VALIDATE_SIGNATURE); bundles without any AGG_SIG condition are accepted with the identity signature only (3 other signatures, every path); pair lists containing the infinity key get the cache-free verdict from BlsCache::aggregate_verify cold and warm. Both tiers cover four message lengths and all 64 ordered opcode pairs over two spends.",
          "trusts: chia_bls::sign/aggregate as the signer (C15/C16), harness codec and SHA-256; forgeries that are not single-point edits are a cryptographic claim outside this check",
          "DESIGN.md#c05"),
  "C12": ("E", "exploration",
